@@ -84,3 +84,72 @@ package solver
 //@     invariant lock:  absi(pb.weights[locked]) == wi
 //@     invariant card:  pb.card == old(pb.card) - old(rsum(pb.weights, s.model, wi, rangei))
 //@     invariant sum:   vsum(pb.weights, A, rangei) - pb.card >= old(vsum(pb.weights, A, rangei)) - old(pb.card)
+
+// ---------------------------------------------------------------- constraint constructors (C02)
+
+//@ define cholds(c PBConstr, A asg) bool = isum(c.Lits, c.Weights, A, len(c.Lits)) >= c.AtLeast
+//@ define nzLits(l []int) bool = forall(k, 0, len(l), l[k] != 0)
+
+// GtEq: the returned constraint is equivalent to "sum of weights of true literals >= n" as the
+// caller wrote it (weights of either sign, zero weights), has positive weights and non-zero literals.
+//@ func GtEq
+//@   ghost A asg
+//@   requires lens: weights == nil || len(lits) == len(weights)
+//@   requires nz:   nzLits(lits)
+//@   requires sep:  weights != nil ==> arr(lits) != arr(weights)
+//@   modifies lits[*], weights[*]
+//@   ensures  shape: (old(weights == nil) ==> result.Weights == nil) && (old(weights != nil) ==> len(result.Lits) == len(result.Weights))
+//@   ensures  pos:   forall(k, 0, len(result.Weights), result.Weights[k] > 0)
+//@   ensures  nz:    nzLits(result.Lits)
+//@   ensures  equiv: (old(isum(lits, weights, A, len(lits))) >= n) <==> cholds(result, A)
+//@   loop 1
+//@     invariant nilcase: old(weights == nil) ==> weights == nil && lits == old(lits) && n == old(n) && forall(k, 0, len(lits), lits[k] == old(lits[k]))
+//@     invariant idx:   0 <= i && i <= len(weights) && (old(weights != nil) ==> len(lits) == len(weights) && weights != nil)
+//@     invariant same:  sameArray(lits, old(lits)) && sameArray(weights, old(weights)) && cap(lits) == old(cap(lits)) && cap(weights) == old(cap(weights))
+//@     invariant pos:   forall(k, 0, i, weights[k] > 0)
+//@     invariant nz:    nzLits(lits)
+//@     invariant eq:    isum(lits, weights, A, len(lits)) - n == old(isum(lits, weights, A, len(lits))) - old(n)
+//@   assert body-end 1 prefix: forall(k, 0, prev(i), weights[k] == prev(weights[k]) && lits[k] == prev(lits[k]))
+//@   assert body-end 1 del: prev(weights[i]) == 0 ==> lem_isum_delete(lits, weights, prev(lits), prev(weights), A, prev(len(weights)), prev(i))
+
+// LtEq: "sum of weights of true literals <= n" as the caller wrote it.
+//@ func LtEq
+//@   ghost A asg
+//@   requires lens: weights != nil && len(lits) == len(weights)
+//@   requires nz:   nzLits(lits)
+//@   requires sep:  arr(lits) != arr(weights)
+//@   modifies lits[*], weights[*]
+//@   ensures  shape: len(result.Lits) == len(result.Weights)
+//@   ensures  pos:   forall(k, 0, len(result.Weights), result.Weights[k] > 0)
+//@   ensures  nz:    nzLits(result.Lits)
+//@   ensures  equiv: (old(isum(lits, weights, A, len(lits))) <= n) <==> cholds(result, A)
+//@   loop 1
+//@     invariant idx:  0 <= rangei && rangei <= len(lits)
+//@     invariant neg:  forall(k, 0, rangei, lits[k] == -old(lits[k]))
+//@     invariant rest: forall(k, rangei, len(lits), lits[k] == old(lits[k]))
+//@     invariant w:    forall(k, 0, len(weights), weights[k] == old(weights[k]))
+//@     invariant sum:  sum == wsum(weights, rangei)
+//@   assert before-call GtEq#1 negsum: lem_isum_neg(lits, old(lits), weights, A, len(lits))
+
+// AtMost: at most n of the literals are true (unit weights).
+//@ func AtMost
+//@   ghost A asg
+//@   requires nz:   nzLits(lits)
+//@   ensures  w:     result.Weights == nil && len(result.Lits) == len(lits)
+//@   ensures  nz:    nzLits(result.Lits)
+//@   ensures  equiv: (isum(lits, nil, A, len(lits)) <= n) <==> cholds(result, A)
+//@   ensures  frame: forall(k, 0, len(lits), lits[k] == old(lits[k]))
+//@   loop 1
+//@     invariant idx:  0 <= rangei && rangei <= len(lits) && len(lits2) == len(lits) && fresh(lits2)
+//@     invariant neg:  forall(k, 0, rangei, lits2[k] == -lits[k])
+//@   assert exit negsum: lem_isum_neg(result.Lits, lits, nil, A, len(lits))
+
+//@ func AtLeast
+//@   ghost A asg
+//@   ensures  id: result.Lits == lits && result.Weights == nil && result.AtLeast == n
+//@   ensures  equiv: (isum(lits, nil, A, len(lits)) >= n) <==> cholds(result, A)
+
+//@ func PropClause
+//@   ghost A asg
+//@   ensures  id: result.Lits == lits && result.Weights == nil && result.AtLeast == 1
+//@   ensures  equiv: (isum(lits, nil, A, len(lits)) >= 1) <==> cholds(result, A)
